@@ -438,11 +438,11 @@ def _report(
         sig = {"kind": "depends_on", "dim": dim, "lang": lang, "file_kind": kind, "cause": cause}
         if extra:
             sig.update(extra)
-        bag.add(
-            sig,
-            case,
-            f"{lang} output depends on {dim}: {kind} file {path or '-'} differs ({cause}) [{cfg_id(cfg)}]",
-        )
+        if kind == "run":
+            text = f"{lang} generation depends on {dim}: one of the two runs fails ({cause}) [{cfg_id(cfg)}]"
+        else:
+            text = f"{lang} output depends on {dim}: {kind} file {path or '-'} differs ({cause}) [{cfg_id(cfg)}]"
+        bag.add(sig, case, text)
 
 
 def _ambient_job(job: dict) -> dict:
